@@ -3,7 +3,7 @@
 L1  theories/C09/Props.v (path algebra, split_remote_path, the three strategies, chain; Prepare/Create events)
 L2  correspondence with the real code on a real temp directory:
     (a) EXHAUSTIVE: every string over {\\ / . a : @ ( 1 ) space} up to length 5 (thorough: 6):
-        split_remote_path and the result of 10 chains (all orders incl. the default one) on a fixture
+        split_remote_path and the result of 8 chains (incl. the default one; 4 chains for length 6) on a fixture
         directory tree, compared through per-block digests computed by the model inside coqc; a
         differing block is re-run string by string to name the first diverging input;
     (b) random long / non-ASCII / hostile remote paths x random chains (length 0..4 over the 3 shipped
@@ -30,7 +30,8 @@ F08B = 'F08-keepdirectory-joins-dotdot-directory'
 F08C = 'F08-no-component-IndexError'
 F09 = 'F09-check-then-create-race-same-local-path'
 
-CHAINS = ['D', 'DN', 'DKN', 'KDN', 'ND', 'DNK', 'K', 'N', '', 'KKD']
+CHAINS = ['D', 'DN', 'DKN', 'KDN', 'ND', 'DNK', 'K', 'N']
+CHAINS6 = ['DN', 'DKN', 'D', 'KDN']     # chains for the length-6 strings of the thorough tier
 
 
 _STRATS = {}
@@ -126,6 +127,8 @@ def real_chain(code, remote, dl):
         p, f = chain_strategies(strategies(code), remote, dl)
     except IndexError:
         return None
+    except Exception as e:       # anything else is not a behaviour of the model: shows up as a difference
+        return (['<exception>', type(e).__name__], '')
     return canon(p, f, dl)
 
 
@@ -155,9 +158,9 @@ def feed_strs(h, l):
     return h
 
 
-def digest(s, dl):
+def digest(s, dl, chains=None):
     h = feed_strs(7, real_split(s))
-    for code in CHAINS:
+    for code in (chains or CHAINS):
         r = real_chain(code, s, dl)
         if r is None:
             h = feed(h, 0)
@@ -181,9 +184,9 @@ Fixpoint strings (n : nat) : list str :=
 '''
 
 
-def coq_digest_defs(snap, dlcomps):
+def coq_digest_defs(snap, dlcomps, chains=None):
     return (COQ_PRELUDE + f'Definition FS : fsys := {fs_lit(snap)}.\nDefinition DL : path := {path_lit(dlcomps)}.\n'
-            f'Definition CHAINS : list (list strat) := {listlit(coq_chain(c) for c in CHAINS)}.\n'
+            f'Definition CHAINS : list (list strat) := {listlit(coq_chain(c) for c in (chains or CHAINS))}.\n'
             'Definition feed_res (h : N) (r : option (path * str)) : N :=\n'
             '  match r with None => feed h 0 | Some (p, f) => feed_str (feed_strs (feed h 1) (skipn (length DL) p)) f end.\n'
             'Definition digest (s : str) : N :=\n'
@@ -248,53 +251,74 @@ def shards(maxlen):
     return out
 
 
+def _shard_work(args):
+    """real side of one shard (runs in a worker process; the fixture tree is only read)"""
+    prefix, free, dl = args
+    chains = CHAINS6 if len(prefix) + free >= 6 else CHAINS
+    from aioslsk.naming import chain_strategies
+    if free == 0:
+        blocks = [[prefix]]
+    else:
+        blocks = [[prefix + c + ''.join(w) for w in itertools.product(ALPHA, repeat=free - 1)] for c in ALPHA]
+    hs, n, viols, seen = [], 0, [], set()
+    for b in blocks:
+        h = 11
+        for s in b:
+            h = feed(h, digest(s, dl, chains))
+            n += 1
+            # monitor on the default chain, the keep-directory chains and the bare default strategy
+            for code in ('DN', 'DKN', 'D', 'DK'):
+                try:
+                    res = chain_strategies(strategies(code), s, dl)
+                except IndexError:
+                    res = None
+                except Exception as e:
+                    if 'impl-exception' not in seen:
+                        seen.add('impl-exception')
+                        viols.append(('impl-exception', f'{type(e).__name__}: {e} for remote {s!r} chain {code}',
+                                      {'remote': s, 'chain': code, 'tree': 'fixture'}))
+                    continue
+                ex = res is not None and os.path.exists(os.path.join(*res))
+                for key, what in monitor_result(code, s, dl, res, ex):
+                    if key not in seen:
+                        seen.add(key)
+                        viols.append((key, what, {'remote': s, 'chain': code, 'tree': 'fixture'}))
+        hs.append(h)
+    return hs, n, viols
+
+
 def exhaustive(run: Run, found):
     t = fixture()
     try:
         snap = t.snapshot()
         dlcomps = ['b', 'dl']
         defs = coq_digest_defs(snap, dlcomps)
+        defs6 = coq_digest_defs(snap, dlcomps, CHAINS6)
         maxlen = 5 if run.tier == 'quick' else 6
         sh = shards(maxlen)
         texts, expect = [], []
         nstr = 0
-        for prefix, free in sh:
-            # one digest per block: a block = fixed next character (or the whole shard when free == 0)
-            blocks = []
-            if free == 0:
-                blocks.append([prefix])
-            else:
-                for c in ALPHA:
-                    blocks.append([prefix + c + ''.join(w) for w in itertools.product(ALPHA, repeat=free - 1)])
-            hs = []
-            for b in blocks:
-                h = 11
-                for s in b:
-                    h = feed(h, digest(s, t.dl))
-                    nstr += 1
-                    res = None
-                    # monitor on the default chain and the keep-directory chain
-                    for code in ('DN', 'DKN', 'D', 'DK'):
-                        from aioslsk.naming import chain_strategies
-                        try:
-                            res = chain_strategies(strategies(code), s, t.dl)
-                        except IndexError:
-                            res = None
-                        ex = res is not None and os.path.exists(os.path.join(*res))
-                        for key, what in monitor_result(code, s, t.dl, res, ex):
-                            add(run, found, key, what, {'remote': s, 'chain': code, 'tree': 'fixture'})
-                hs.append(h)
+        import multiprocessing
+        from concurrent.futures import ProcessPoolExecutor
+        from vlib.common import NPROC
+        ctx = multiprocessing.get_context('fork')
+        with ProcessPoolExecutor(max_workers=max(1, min(NPROC, 12)), mp_context=ctx) as ex:
+            results = list(ex.map(_shard_work, [(prefix, free, t.dl) for prefix, free in sh], chunksize=1))
+        for (prefix, free), (hs, n, viols) in zip(sh, results):
+            nstr += n
+            for key, what, wit in viols:
+                add(run, found, key, what, wit)
             expect.append(hs)
             if free == 0:
                 body = f'Eval vm_compute in [fold_left (fun h s => feed h (digest s)) [{s_lit(prefix)}] 11].'
             else:
                 body = ('Eval vm_compute in (map (fun c => fold_left (fun h s => feed h (digest s)) '
                         f'(map (fun w => {s_lit(prefix)} ++ c :: w) (strings {free - 1})) 11) ALPHA).')
-            texts.append(defs + body + '\n')
+            texts.append((defs6 if len(prefix) + free >= 6 else defs) + body + '\n')
         run.count('exhaustive_strings', nstr)
         run.evaluations += nstr
         run.distinct_nontrivial += nstr
-        run.cov['exhaustive'] = f'all {nstr} strings over {"".join(ALPHA)!r} up to length {maxlen} x {len(CHAINS)} chains on the fixture tree'
+        run.cov['exhaustive'] = f'all {nstr} strings over {"".join(ALPHA)!r} up to length {maxlen} x {len(CHAINS)} chains ({len(CHAINS6)} for length 6) on the fixture tree'
         outs = coq_eval_many('c09x', texts, timeout=900)
         bad_blocks = []
         for (prefix, free), out, hs in zip(sh, outs, expect):
@@ -308,7 +332,8 @@ def exhaustive(run: Run, found):
                     bad_blocks.append((prefix, free))
         if bad_blocks:
             prefix, free = bad_blocks[0]
-            first = first_diverging(defs, prefix, free, t.dl)
+            six = len(prefix) + free >= 6
+            first = first_diverging(defs6 if six else defs, prefix, free, t.dl, CHAINS6 if six else CHAINS)
             run.add_broken('correspondence:C09 exhaustive split_remote_path/chain vs model',
                            f'{len(bad_blocks)} blocks differ; first block prefix={prefix!r}+{free} chars; first diverging input: {first}')
         else:
@@ -317,12 +342,12 @@ def exhaustive(run: Run, found):
         t.close()
 
 
-def first_diverging(defs, prefix, free, dl):
+def first_diverging(defs, prefix, free, dl, chains):
     strs = [prefix + ''.join(w) for w in itertools.product(ALPHA, repeat=free)]
     texts = []
     for i in range(0, len(strs), 500):
         chunk = strs[i:i + 500]
-        texts.append(defs + 'Definition cases : list (str * N) := ' + listlit(f'({s_lit(s)}, {digest(s, dl)})' for s in chunk) + '.\n'
+        texts.append(defs + 'Definition cases : list (str * N) := ' + listlit(f'({s_lit(s)}, {digest(s, dl, chains)})' for s in chunk) + '.\n'
                      'Eval vm_compute in (map (fun c => N.of_nat (length (fst c))) (filter (fun c => negb (N.eqb (digest (fst c)) (snd c))) cases)).\n'
                      'Eval vm_compute in (map fst (filter (fun c => negb (N.eqb (digest (fst c)) (snd c))) cases)).\n')
     try:
@@ -337,7 +362,7 @@ def first_diverging(defs, prefix, free, dl):
                 s = ''.join(chr(int(x.replace('%N', ''))) for x in inner.split(';') if x.strip())
             except Exception:
                 return vals[1][:200]
-            return {'remote': s, 'impl_split': real_split(s), 'impl_chains': {c: real_chain(c, s, dl) for c in CHAINS}}
+            return {'remote': s, 'impl_split': real_split(s), 'impl_chains': {c: real_chain(c, s, dl) for c in chains}}
     return None
 
 
@@ -629,6 +654,8 @@ def replay_witness(wit):
             raw = chain_strategies(strategies(wit['chain']), wit['remote'], t.dl)
         except IndexError:
             raw = None
+        except Exception as e:
+            return [('impl-exception', f'{type(e).__name__}: {e}')]
         ex = raw is not None and os.path.exists(os.path.join(*raw))
         return monitor_result(wit['chain'], wit['remote'], t.dl, raw, ex)
     finally:
@@ -636,7 +663,7 @@ def replay_witness(wit):
 
 
 def run(run: Run):
-    run.rule = ('(a) every string over the 10-character alphabet {\\ / . a : @ ( 1 ) space} up to length 5 (thorough 6) x 10 strategy chains '
+    run.rule = ('(a) every string over the 10-character alphabet {\\ / . a : @ ( 1 ) space} up to length 5 (thorough 6) x 8 strategy chains (4 for the length-6 strings) '
                 'on a fixture tree with numbered duplicates in the download dir, a sub-directory and its parent; (b) remote paths of 0..6 '
                 'components from a hostile pool (.., ., empty, @@alias, drive letters, dotted, non-ASCII, 200-char names) joined by mixed/'
                 'repeated/leading/trailing separators x random chains of length 0..4 x random directory contents built around the chosen '
